@@ -183,19 +183,22 @@ CHECKS = {
     },
     "C09": {
         "stages": [
-            st("main", "rel", [3, 9], [240, 900], watchdog_factor=2),
-            st("avx2", "avx2", [0, 6], [0, 900], thorough_only=True, watchdog_factor=2),
+            st("main", "rel", [4, 10], [240, 900], watchdog_factor=2),
+            st("avx2", "avx2", [0, 7], [0, 900], thorough_only=True, watchdog_factor=2),
             st("asan", "asan", [0, 3], [0, 600], thorough_only=True, watchdog_factor=2),
         ],
         "rule": "fault enumeration: for one image per connector kind (matrix, raw, dual; thorough adds images with user lexicon + id mapping "
                 "and the AVX2 build) EVERY strict prefix length k in 0..len is fed to Dictionary::read (lengths split over 16 shards): Err "
                 "required, a panic or Ok is a violation. Plus: the full image and 60 prefixes through readers delivering 1 byte / random chunks / "
                 "spurious Interrupted; a hard I/O error at a random offset; a writer failing after k bytes (Err + strict prefix); all 21x255 "
-                "single-byte corruptions of the magic, every shorter header, older/foreign headers. ASan (thorough) re-runs a stride sample. "
+                "single-byte corruptions of the magic, every shorter header, older/foreign headers (also through 1-byte and short-first-chunk "
+                "readers). A fourth image with more than 65536 unknown-word entries (~1 MB) is cut at a SAMPLE of lengths (first 2048, last "
+                "8192, every ~2500th): that image is not enumerated exhaustively. ASan (thorough) re-runs a stride sample. "
                 "Distinct = (image, shard residue class).",
         "required_buckets": ["every_prefix_of_image_enumerated", "image_matrix_connector", "image_raw_connector", "image_dual_connector",
                              "all_single_byte_header_corruptions", "reader_1_byte_per_call_ok", "reader_spurious_interrupted_ok",
-                             "io_error_surfaced_as_err", "interrupted_write_is_err_and_strict_prefix", "reader_short_first_chunk_ok"],
+                             "io_error_surfaced_as_err", "interrupted_write_is_err_and_strict_prefix", "reader_short_first_chunk_ok",
+                             "image_more_than_65536_unknown-word_entries"],
         "exhaustive_bucket": "every_prefix_of_image_enumerated",
         "exhaustive_scope": "all strict prefixes (truncation points) of the images enumerated in this run; the images themselves are sampled",
         "assumptions": ["arbitrary corruption (as opposed to truncation and a foreign header) is outside C09"],
